@@ -183,13 +183,24 @@ def run_output_vcf(case):
         pop_samples = [[]] * (max(labels) + 1 if labels else 0)
         pop_samples = [[int(sample_dict[x]) for x in pop_sample.get(pop_dict[l], [])] if l in pop_dict else [] for l in range(max(labels) + 1)] if labels else []
         hap_in = [SD.seg_t(s)[:3] + [0] for s in haplotype]
+        frs_calls.clear()
         r = orig_conv(haplotype, chrom, pop_dict, pop_sample, sample_dict, haps_used, no_replacement)
         choices = []
         for lab, ind in zip(r[1], r[3]):
             lst = pop_samples[int(lab)] if int(lab) < len(pop_samples) else []
             choices.append(lst.index(int(ind)) if int(ind) in lst else len(lst))  # len(lst): drawn outside its population
-        rec.append({"chrom": cnum(chrom), "ends": [int(x) for x in r[0]], "pops": [int(x) for x in r[1]], "names": [str(x) for x in r[2]], "inds": [int(x) for x in r[3]], "strands": [int(x) for x in r[4]], "nlog": len(rp.log), "hap_in": hap_in, "pop_samples": pop_samples, "choices": choices})
+        rec.append({"chrom": cnum(chrom), "ends": [int(x) for x in r[0]], "pops": [int(x) for x in r[1]], "names": [str(x) for x in r[2]], "inds": [int(x) for x in r[3]], "strands": [int(x) for x in r[4]], "nlog": len(rp.log), "hap_in": hap_in, "pop_samples": pop_samples, "choices": choices, "requests": [list(x) for x in frs_calls] if no_replacement else None})
         return r
+
+    # --no_replacement: the (start, end) stretches requested from _find_random_sample during one _convert_haplotype call
+    frs_calls = []
+    orig_frs = sg._find_random_sample
+
+    def frs(samples, sample_dict, haps_used, chrom, start_coord, end_coord):
+        frs_calls.append((int(start_coord), int(end_coord)))
+        return orig_frs(samples, sample_dict, haps_used, chrom, start_coord, end_coord)
+
+    sg._find_random_sample = frs
 
     sg._convert_haplotype, sg.np = conv, SD._NPProxy(rp)
     np.random.seed(case["seed"])
@@ -197,6 +208,7 @@ def run_output_vcf(case):
         sg.output_vcf(bps, case["chroms"], str(d / "model.dat"), ref_file, str(d / "info.tab"), case["region"], case["pop_field"], case["sample_field"], case["no_repl"], out, SD.silent_log())
     finally:
         sg._convert_haplotype, sg.np = orig_conv, orig_np
+        sg._find_random_sample = orig_frs
     # strands: no_replacement -> from _find_random_sample (r[4]); otherwise the randint(2,size) drawn right after
     for r in rec:
         if not case["no_repl"]:
@@ -205,7 +217,7 @@ def run_output_vcf(case):
     obs = read_output(out, case)
     obs["tape"] = [{k: v for k, v in r.items() if k != "nlog"} for r in rec]
     # what _convert_haplotype returned per (haplotype, chromosome): block ends and per block [reference sample, label]
-    obs["conv"] = [[r["ends"], [[i, p] for i, p in zip(r["inds"], r["pops"])]] for r in rec]
+    obs["conv"] = [[r["ends"], [[i, p] for i, p in zip(r["inds"], r["pops"])], r["requests"]] for r in rec]
     return obs
 
 
@@ -298,7 +310,7 @@ def model_req2(case):
 def model_obs(case, resp):
     if "resps" not in resp or not resp["resps"]:
         return {"gts": None}
-    conv = [[r["ends"], [[s[0], s[2]] for s in r["srcs"]]] for r in resp["resps"][1:]]
+    conv = [[r["ends"], [[s[0], s[2]] for s in r["srcs"]], r["requests"] if case["no_repl"] else None] for r in resp["resps"][1:]]
     resp = resp["resps"][0]
     out = _model_obs1(case, resp)
     out["conv"] = conv
